@@ -16,6 +16,7 @@ Inductive trigger :=
   | TrDanglingParent      (* K4: a parent component of the name is a dangling symlink *)
   | TrRelativeName        (* D20: the operation names its path relatively *)
   | TrHiddenViaLink
+  | TrForceNewParent      (* D22: ForceBackup of a path below a directory that was created in the transaction *)
   | TrRemovesRoot.        (* K6: Remove/RemoveAll/Rename of the root directory of the base view itself *)      (* D9: a name that is not lexically hidden resolves (through a symlink or a physical ..) into a hidden path *)
 
 (** evaluate a read-only monadic query on a world, discarding effects *)
@@ -175,6 +176,17 @@ Section Trig.
     (if existsb (fun n => negb (is_abs (clean n))) (op_paths o) then [TrRelativeName] else []) ++
     (match o with
      | ORemove n | ORemoveAll n | ORename n _ => if str_eqb (clean n) s_root then [TrRemovesRoot] else []
+     | _ => []
+     end) ++
+    (match o with
+     | OForceBackup n =>
+         match query (real_path b n) w with
+         | Some rp =>
+             if existsb (fun a => match w_infos w !! a with Some None => true | _ => false end)
+                        (removelast (cands rp))
+             then [TrForceNewParent] else []
+         | None => []
+         end
      | _ => []
      end) ++
     (if existsb (fun n => hidden_via_link n w)
